@@ -220,6 +220,24 @@ def stage_b_table(run, table):
 _BENIGN = {}
 
 
+def _worker_init(cache_dir):
+    """Template compilation dominates a generation (0.25 of 0.33 s); workers share a Jinja bytecode cache in a fresh directory.
+    run() checks that a cached rendering is byte-identical to an uncached one."""
+    import jinja2
+    cache = jinja2.FileSystemBytecodeCache(cache_dir)
+    orig = jinja2.Environment.__init__
+    def init(self, *a, **k):
+        k.setdefault("bytecode_cache", cache)
+        orig(self, *a, **k)
+    jinja2.Environment.__init__ = init
+
+
+def _benign_digest(meta):
+    import hashlib
+    files, diag, exc = _render(probe.build("A", probe.Canaries()), meta, {})
+    return hashlib.sha256(json.dumps(sorted(files.items())).encode()).hexdigest(), exc
+
+
 def _render(doc, meta, cfg):
     from lib import impl
     with impl.Gen(doc, meta=meta, cfg=cfg) as g:
@@ -465,7 +483,8 @@ def run(run, tier, replay=None):
                 "distinct by hash of (slots, payloads, flavour, options)")
     run.assumptions += ["CPython tokenizer beyond string literals, Jinja wordwrap/indent (treated as whitespace-only), and the Jinja engine are not modelled: reached by the stage C oracle only",
                         "slot coverage = the probe grammar in harness/lib/probe.py; pydantic str fields it does not fill are listed in evidence (unreached_fields)",
-                        "identifier validity for ClassName / enum keys rests on C09 (only the character-class theorem ident_image_inert is proved here)"]
+                        "identifier validity for ClassName / enum keys rests on C09 (only the character-class theorem ident_image_inert is proved here)",
+                        "stage C workers enable Jinja's FileSystemBytecodeCache (fresh directory per run); a cached rendering is checked byte-identical to an uncached one on every run"]
     run.extra["site_rows"] = len(table["rows"])
     run.extra["slots_probed"] = len(table["labels"])
     run.extra["slots_emitted"] = len(table["emitted_slots"])
@@ -489,9 +508,19 @@ def run(run, tier, replay=None):
     cases = rep_cases if rep_cases is not None else build_cases(run, tier, table)
     emitted = set(table["emitted_slots"])
     results = []
+    import tempfile, shutil
     ctx = __import__("multiprocessing").get_context("fork")
-    with cf.ProcessPoolExecutor(max_workers=14, mp_context=ctx) as ex:
-        results = list(ex.map(check_case, [{"slots": c["slots"], "meta": c["meta"], "cfg": c["cfg"]} for c in cases], chunksize=4))
+    cache_dir = tempfile.mkdtemp(prefix="opc_c05_jinja_")
+    try:
+        ref = _benign_digest("setup")      # parent: no cache
+        with cf.ProcessPoolExecutor(max_workers=14, mp_context=ctx, initializer=_worker_init, initargs=(cache_dir,)) as ex:
+            d1 = ex.submit(_benign_digest, "setup").result()
+            d2 = ex.submit(_benign_digest, "setup").result()
+            if not (ref == d1 == d2):
+                run.violation("harness-error", {"note": "rendering with the Jinja bytecode cache differs from the uncached rendering", "digests": [ref, d1, d2]}, no_input=True)
+            results = list(ex.map(check_case, [{"slots": c["slots"], "meta": c["meta"], "cfg": c["cfg"]} for c in cases], chunksize=4))
+    finally:
+        shutil.rmtree(cache_dir, ignore_errors=True)
     fails = []   # (case, fail)
     for c, r in zip(cases, results):
         run.note_case({"slots": c["slots"], "meta": c["meta"], "cfg": c["cfg"]}, nontrivial=any(l in emitted for l in c["slots"]), kind="C:" + c.get("kind", "replay") + ":" + "+".join(sorted(set(c.get("classes", {}).values()))) [:40])
